@@ -22,8 +22,8 @@ PROPS_MODULES = ["TraitsVerif.Props.C16"]
 TRANSLATORS = ["legacysrc"]
 RULE = ("names: 1-3 links over child (Instance) / kids (List) / byname (Dict) / group (Set; not with value-equality "
         "nodes, which are unhashable) with '.' or ':' after each link; 10% of the random names have a GROUP `[a,b]` / `[a,b,c]` of distinct link "
-        "traits at one position (legacy `[child,kids].value`, observe `[child,kids.items].value`) and 4% end in the "
-        "metadata name `+tag` (matches `value` only) - both real APIs and the oracle, not the Lean driver; final "
+        "traits at one position (legacy `[child,kids].value`, observe `[child,kids.items].value`) and 10% end in the "
+        "metadata name `+tag` / the optional name `value?` / the prefix wildcard `val+` (observe side: plain `value`) (all match `value` only) - both real APIs and the oracle, not the Lean driver; final "
         "value|aux, handler signatures with 0, 3, 4 arguments (1 and 2 arguments with ':' links only, implementation + "
         "oracle only); histories of 1-12 operations built with a shadow tree so "
         "that ~60% of the mutations hit an object currently reachable along the name at the link the name follows "
@@ -190,6 +190,49 @@ def extra_checks(ctx):
         if bad:
             hits.append({"signature": DISPATCH_SIG, "what": "on_trait_change(h, '<link>:value', dispatch=%r): re-registration "
                          "handlers not installed with the synchronous 'extended' dispatch: %s" % (disp, ", ".join(bad))})
+    hits += _late_trait_probe()
+    return hits
+
+
+LATE_SIG = "new-trait-added:container-registered-as-simple"
+
+
+def _late_trait_probe():
+    """Regression probe (finding F107, repaired in /repo a16357d; a hit is a plain violation; Lean side:
+    C16_new_trait_added_full): a List trait ADDED to a listened-to object after a metadata / wildcard listener with a following item was
+    registered must be handled like one that was there at registration time (observe does)."""
+    from traits.api import HasTraits, Int, Instance, List, push_exception_handler, pop_exception_handler
+
+    class N(HasTraits):
+        value = Int()
+        kids = List(Instance(HasTraits), tag=True)
+    push_exception_handler(lambda *a: None, reraise_exceptions=True)
+    try:
+        out = {}
+        for dynamic in (False, True):
+            r, legacy, obs, errs = N(), [], [], []
+            r.on_trait_change(lambda o, n, old, new: legacy.append(new), "+tag:value")
+            r.observe(lambda e: obs.append(e.new), "+tag:items:value")
+            name = "kids"
+            try:
+                if dynamic:
+                    name = "more"
+                    r.add_trait("more", List(Instance(HasTraits), tag=True))
+                a = N()
+                setattr(r, name, [a])
+                a.value = 7
+            except Exception as e:
+                errs.append("%s: %s" % (type(e).__name__, str(e)[:80]))
+            out[dynamic] = (legacy, obs, errs)
+    finally:
+        pop_exception_handler()
+    hits = []
+    if out[False] != ([7], [7], []):
+        hits.append({"signature": "metadata-link:static-list-trait", "what": "'+tag:value' on a class-level List trait: %r" % (out[False],)})
+    if out[True] != ([7], [7], []):
+        hits.append({"signature": LATE_SIG, "what": "root.on_trait_change(h, '+tag:value'); root.add_trait('more', List(Instance, "
+                     "tag=True)); root.more = [a]; a.value = 7 -> legacy calls %r, observe calls %r, raised %r (a List trait "
+                     "present at registration time: [7], [7], [])" % out[True]})
     return hits
 
 
